@@ -42,6 +42,9 @@ class RecordImpl:
         self.shape = tuple(hdr.get("shape", (hdr.get("E0", 1),)))
         self.E0 = int(math.prod(self.shape)) if self.shape else 1
         self.param = bool(hdr.get("param", False))
+        # integer dtype of tensor-valued offsets (any integer tensor is a legitimate offset)
+        self.offdt = {"int64": torch.int64, "int32": torch.int32, "int16": torch.int16, "int8": torch.int8,
+                      "uint8": torch.uint8}[hdr.get("offdt", "int64")]
         kind, dty = hdr["kind"], hdr.get("dty", "f")
         self.dtk0, self.durk0, self.incl0 = hdr["dtk"], hdr["durk"], bool(hdr["incl"])
         if kind == "none":
@@ -160,7 +163,7 @@ class RecordImpl:
             return {"t": "ok"}
         if a == "readrange":
             if o["tens"]:
-                off = torch.tensor(o["kv"], dtype=torch.int64)
+                off = torch.tensor(o["kv"], dtype=self.offdt)
                 shape = self.cur_shape()
                 if len(o["kv"]) == (math.prod(shape) if shape else 1):
                     off = off.reshape(shape)
@@ -172,7 +175,7 @@ class RecordImpl:
         if a == "writerange":
             obs = self._range_obs(o["vs"], o["d"])
             if o["tens"]:
-                off = torch.tensor(o["kv"], dtype=torch.int64)
+                off = torch.tensor(o["kv"], dtype=self.offdt)
                 shape = self.cur_shape()
                 if len(o["kv"]) == (math.prod(shape) if shape else 1):
                     off = off.reshape(shape)
